@@ -81,7 +81,8 @@ impl Sm9EncKey {
             x.iter().all(|&byte| byte == 0)
         }
 
-        if !is_zero(&k) {
+        // B3: K1' = the first mlen bytes of the derived key must not be all zero
+        if !is_zero(&k[..data.len() - (65 + 32)].to_vec()) {
             let k = k.as_slice();
             let mlen = data.len() - (65 + 32);
             let k1 = &k[0..mlen];
@@ -144,7 +145,8 @@ impl Sm9EncMasterKey {
                 x.iter().all(|&byte| byte == 0)
             }
 
-            if !is_zero(&k) {
+            // A6: K1 = the first |M| bytes of the derived key must not be all zero
+            if !is_zero(&k[..data.len()].to_vec()) {
                 break;
             }
         }
